@@ -1039,7 +1039,7 @@ class Analysis:
                 ft = T.mk('all', tag, self.strip_ix(ft, loops))
                 ff = T.mk('all', tag, self.strip_ix(ff, loops))
             s2 = st.copy()
-            st.facts = st.facts | {ft}
+            st.facts = st.facts | (self.conj_facts(ft) if not loops else {ft})
             s2.facts = s2.facts | {ff}
             cn = T.node(c)
             if cn[0] == 'bool':
@@ -1196,6 +1196,10 @@ class Analysis:
                 vals.append(v)
             if all(v == vals[0] for v in vals):
                 env[l] = vals[0]
+            elif len(vals) == 2 and self.flag_merge(states, vals) is not None:
+                # `if (ok) ok = next_check();`: on the edge that skips the assignment the flag is
+                # known to be false, so after the join  ok  is  old_ok && next_check
+                env[l] = self.flag_merge(states, vals)
             else:
                 pk = (n.id, l)
                 src = T.phi_src.setdefault(pk, set())
@@ -1205,6 +1209,29 @@ class Analysis:
                         src.add(v)
                 env[l] = me
         return State(env, frozenset())
+
+    def flag_merge(self, states, vals):
+        T = self.T
+        (e1, s1), (e2, s2) = states
+        v1, v2 = vals
+        if not all(isinstance(v, int) and not isinstance(v, bool) for v in vals):
+            return None       # alias bookkeeping entries are not values
+        for (va, sa, vb) in ((v2, s2, v1), (v1, s1, v2)):
+            # va: value on the skipping edge, known false there; vb: value assigned on the other path
+            if T.op(va) in ('int', 'str', 'null', 'new', 'fresh'):
+                continue
+            if self.truth(va, False) in sa.facts and T.op(self.truth(va, False)) != 'bool':
+                return T.mk('conj', va, vb)
+        return None
+
+    def conj_facts(self, f):
+        """truthy(a && b) holds exactly when both hold"""
+        T = self.T
+        n = T.node(f)
+        if n[0] == 'truthy' and T.op(n[1]) == 'conj':
+            c = T.node(n[1])
+            return self.conj_facts(self.truth(c[1], True)) | self.conj_facts(self.truth(c[2], True))
+        return {f}
 
     def run(self, max_passes):
         """phase 1: environments.  Loop heads get a phi for every location written inside the
@@ -1680,7 +1707,7 @@ class Analysis:
             tv = self.truth(val, True)
             if self.neg_fact(tv) in st.facts:
                 continue          # the value returned is known to be false on this path
-            out.append((n, st.facts | {tv}))
+            out.append((n, st.facts | self.conj_facts(tv)))
         return out
 
     def accept_facts(self):
